@@ -197,8 +197,19 @@ def decorator_text(case, i, ind):
     raise ValueError(layout)
 
 
-def render_module(cases):
-    L = [PRELUDE, "REPRS = {}", ""]
+# every contract of the module with enabled=True spelled out (the decorators are the library's own; the name
+# `icontract` of the module is bound to a namespace whose four decorators pass enabled=True along)
+FORCE_ENABLED = '''import functools as _functools
+import types as _types
+_icontract = icontract
+icontract = _types.SimpleNamespace(**{n: getattr(_icontract, n) for n in dir(_icontract) if not n.startswith("__")})
+for _n in ("require", "ensure", "snapshot", "invariant"):
+    setattr(icontract, _n, _functools.partial(getattr(_icontract, _n), enabled=True))
+'''
+
+
+def render_module(cases, force_enabled=False):
+    L = [PRELUDE, FORCE_ENABLED if force_enabled else "", "REPRS = {}", ""]
     for i, case in enumerate(cases):
         closure = [n for n, _ in case["closure"]]
         nesting = case.get("nesting", 0)     # 0: function in a factory, 1: method of a class in the factory, 2: async
@@ -521,7 +532,7 @@ def main():
     payload = json.load(sys.stdin)
     cases = payload["cases"]
     plain = bool(payload.get("plain"))
-    src = render_module(cases)
+    src = render_module(cases, bool(payload.get("force_enabled")))
     path = os.path.join(os.getcwd(), "icv_expr_%d.py" % os.getpid())
     with open(path, "w", encoding="utf-8") as fh:
         fh.write(src)
